@@ -12,13 +12,16 @@ WORKER = os.path.join(os.path.dirname(os.path.dirname(os.path.abspath(__file__))
 
 
 def run_seed(seed):
+    direction = "fwd"
+    if isinstance(seed, tuple):
+        seed, direction = seed
     env = dict(os.environ)
     env["PYTHONHASHSEED"] = str(seed)
     env["VERIF_KEEP_HASHSEED"] = "1"
-    p = subprocess.run([sys.executable, WORKER, "/repo"], env=env, capture_output=True, text=True, timeout=300)
+    p = subprocess.run([sys.executable, WORKER, "/repo", direction], env=env, capture_output=True, text=True, timeout=300)
     if p.returncode != 0:
         raise RuntimeError(f"worker seed {seed} failed: {p.stderr[-2000:]}")
-    return seed, json.loads(p.stdout)
+    return (seed if direction == "fwd" else f"{seed}/reverse-order"), json.loads(p.stdout)
 
 
 def run(ctx):
@@ -32,7 +35,7 @@ def run(ctx):
     target = 6  # all 3! iteration orders of the 3-element string set
     while (len(orders) < target or len(seeds_done) < ctx.pick(8, 24)) and len(seeds_done) < max_seeds:
         seeds = list(range(batch * 8 + ctx.seed * 1000, batch * 8 + 8 + ctx.seed * 1000))
-        res = ctx.pmap(run_seed, seeds, chunksize=1)
+        res = ctx.pmap(run_seed, seeds + ([(s_, "rev") for s_ in seeds[:4]] if batch == 0 else []), chunksize=1)
         check_harness_errors(res)
         for seed, out in res:
             seeds_done.append(seed)
@@ -48,7 +51,7 @@ def run(ctx):
     for vid, hs in by_val.items():
         kind = vid.split(":")[0]
         alpha = vid.split(":")[1] if ":" in vid else ""
-        elems = {"s3": "str", "s2": "str", "f2": "str", "i3": "int", "m2": "mixed"}.get(alpha, alpha)
+        elems = {"s3": "str", "s2": "str", "f2": "str", "i3": "int", "m2": "mixed", "tA": "twins", "tB": "twins", "tC": "twins"}.get(alpha, alpha)
         if any(h.startswith("ERR") for h in hs):
             err = next(h for h in hs if h.startswith("ERR"))
             ctx.violation(f"cannot-hash:{kind}:{elems}:{err}", {"value": vid}, f"{vid}: get_hash raised {err}")
